@@ -53,7 +53,14 @@ Wrap(c) == {List(c), Map(S("s"), c), Tup(<<S("C"), c>>), Struct(N_R, <<N_x, N_y>
 FixedMixed == {List(p) : p \in Pairs} \cup {Map(S("s"), p) : p \in Pairs}
               \cup {List(Tup(<<S("b"), Tup(<<S("i"), S("l")>>)>>)), List(Tup(<<S("b"), S("i")>>)),
                     List(Struct(N_Q, <<N_a, N_b>>, <<S("c"), S("L")>>))}
-L2 == UNION {Wrap(c) : c \in R1} \cup FixedMixed
+(* WIDE tuples and structures: more members than a machine word has bits (a per-type table of members kept as *)
+(* a bit mask ends at 64), every scalar kind in turn, one string among them                                  *)
+WideN == 67
+WideMs == [i \in 1..WideN |-> S(PlainSeq[(i % Len(PlainSeq)) + 1])]
+WideNames == [i \in 1..WideN |-> <<102, 48 + (i \div 10), 48 + (i % 10)>>]      \* "f01" .. "f67"
+N_W == <<87>>
+Wide == {Tup(WideMs), Struct(N_W, WideNames, WideMs)}
+L2 == UNION {Wrap(c) : c \in R1} \cup FixedMixed \cup Wide
 R2 == {List(List(S("s"))), Map(S("s"), List(S("m"))), Tup(<<S("C"), Map(S("s"), S("i"))>>),
        List(Struct(N_Q, <<N_a, N_b>>, <<S("i"), S("s")>>)), Map(S("s"), Map(S("s"), S("m"))),
        Struct(N_R, <<N_x, N_y>>, <<List(S("m")), S("w")>>)}
